@@ -29,6 +29,13 @@ func compactDatesAsSeconds(v *rh.Value, seen map[*rh.Value]bool) bool {
 	return found
 }
 
+// Twin has a namesake in package zoo with fewer fields.
+type Twin struct {
+	A int32
+	B int32
+	C interface{}
+}
+
 // wireCheck performs the C02 check for one value.
 func wireCheck(c *core.Ctx, val interface{}, desc, shape string, choices []int) string {
 	out := wireCheckNames(c, val, desc, shape, choices, false)
@@ -168,6 +175,24 @@ func init() {
 					c.Res.Transitions++
 					c.Outcome(wireCheck(c, v, desc, "classes", nil))
 				})
+				// two Go struct types with one class name (the name carries no package path), in every order of
+				// four instances: each instance must be written under a definition with its own field list
+				for mask := 0; mask < 16; mask++ {
+					if !c.Begin() {
+						continue
+					}
+					c.NontrivialN(1)
+					c.Res.States++
+					var l []interface{}
+					for i := 0; i < 4; i++ {
+						if mask>>uint(i)&1 == 0 {
+							l = append(l, zoo.Twin{A: int32(i + 1)})
+						} else {
+							l = append(l, Twin{A: int32(i + 1), B: int32(10 + i), C: "c"})
+						}
+					}
+					c.Outcome(wireCheck(c, l, fmt.Sprintf("[]interface{} of zoo.Twin{A} (0) and props.Twin{A,B,C} (1) instances in the order %04b", mask), "same-name types", nil))
+				}
 				c.Cover("classes")
 			}})
 			return us
